@@ -4,6 +4,9 @@ import engine
 from c02 import shipped_scenarios
 
 
+REPLAY = ("TraceSearch", engine.TRACE_CFG % '"C07"')
+
+
 def signature(ev):
     sc = ev["sc"]
     if ev["hasoff"] and ev["off"] and ev["mainans"] != ev["offans"]:
